@@ -20,6 +20,7 @@ pub(crate) static mut REC_CALLS: usize = 0;
 pub(crate) static mut REC_CUT: usize = usize::MAX;
 pub(crate) static mut REC_FINISHED: bool = false;
 
+pub(crate) fn rec_reset(cut: usize) { unsafe { REC_N = 0; REC_CALLS = 0; REC_CUT = cut; REC_FINISHED = false; } }
 fn rec_accept() -> bool { unsafe { let c = REC_CALLS; REC_CALLS += 1; c < REC_CUT } }
 fn rec_push(op: RecOp) { unsafe { if REC_N >= REC_CAP { kani::assume(false); } REC[REC_N] = op; REC_N += 1; } }
 fn first_byte(s: &str) -> u8 { if s.is_empty() { 0 } else { s.as_bytes()[0] } }
